@@ -207,10 +207,14 @@ def applyInput (st : Inp) (op : List String) (exts : List (List String)) : Optio
       some (some { st with rules := rules, g := g, bad := bad })
     | _, _, _ => some none
   | "span" :: args =>
+    let kindOf (a : String) : Option Kind :=
+      if a == "kind=e" then some .event else if a == "kind=l" then some .link else if a == "kind=s" then some .span else none
+    let kind := (args.findSome? kindOf).getD .span
     let step (acc : Option (Bool × List (String × Val))) (a : String) : Option (Bool × List (String × Val)) :=
       match acc with
       | none => none
       | some (root, data) =>
+        if (kindOf a).isSome then acc else
         match a.splitOn "=" with
         | [k, vt] =>
           if k == "root" && (vt == "0" || vt == "1") then some (vt == "1", data)
@@ -224,7 +228,7 @@ def applyInput (st : Inp) (op : List String) (exts : List (List String)) : Optio
     | none => some none
     | some (root, data) =>
       let (g, bad) := addExts st.g st.bad exts false
-      some (some { st with spans := st.spans ++ [⟨root, ⟨data⟩⟩], g := g, bad := bad })
+      some (some { st with spans := st.spans ++ [⟨root, { data := data, kind := kind }⟩], g := g, bad := bad })
   | ["cleartrace"] => some (some { st with spans := [] })
   | _ => none
 
@@ -441,7 +445,11 @@ def monEval (st : Inp) (g : Graph) (obs : String) : List Fail :=
       (cells.flatMap fun x =>
         match x.val with
         | some v =>
-          if x.ex && x.m != condValue E c v true then
+          -- only on arguments for which the external graphs are known (an extraction already reported
+          -- as wrong may lie outside them)
+          let known := (g.fmt.lookup v).isSome &&
+            (c.op != .regex || !E.rxCompiles (E.fmt c.val) || (g.rxm.lookup (E.fmt c.val, E.fmt v)).isSome)
+          if x.ex && known && x.m != condValue E c v true then
             [mk s!"comparison:op={opWord c.op}:dt={dtWord c.dt}" s!"rule {r.name}: {valTok v} {opWord c.op} {valTok c.val} (datatype {dtWord c.dt}) gave {x.m}"]
           else if !x.ex && c.op == .notEx && !x.m then
             [mk "comparison:op=not-exists:dt=none" s!"rule {r.name}: not-exists did not match a span without the field"]
